@@ -154,7 +154,7 @@ func (b *builder) variant(base gen.MsgSpec) (gen.MsgSpec, string) {
 					first = v[:c]
 				}
 				if bi := strings.Index(first, ";branch="); bi >= 0 && !strings.Contains(first, "\"") {
-					ins := b.r.Pick([]string{";x=\"a,b\"", ";y=\"p;q\"", ";rport", ";ttl=1", ";z=\"\\\"\""})
+					ins := b.r.Pick([]string{";x=\"a,b\"", ";y=\"p;q\"", ";rport", ";ttl=1", ";z=\"\\\"\"", ";received=10.0.0.1", ";maddr=a.b-c_d", ";w=0123456789abcdef"})
 					m.Hdrs[i].Val = v[:bi] + ins + v[bi:]
 					what = append(what, "via-params")
 				}
@@ -205,11 +205,10 @@ func (b *builder) variant(base gen.MsgSpec) (gen.MsgSpec, string) {
 // C19: paired connections carry metamorphic variants of one request.
 func (b *builder) buildC19() {
 	b.g.Strict = true
-	method := ""
-	if b.r.Chance(1, 2) {
-		method = b.r.Pick([]string{"INVITE", "INVITE", "REGISTER", "OPTIONS", "BYE", "SUBSCRIBE"})
-	}
-	o := gen.MsgOpts{Request: 1, CL: gen.CLExact, BodyMax: 80, MaxHdrs: b.r.PickInt(0, 0, 6, 12), ForceMethod: method, ValidStatus: true}
+	// methods as RFC 3261 writes them, or extension tokens in upper case (how a method token is
+	// classified is C08/C16's business; the signature model only needs to know what an INVITE is)
+	method := b.r.Pick([]string{"INVITE", "INVITE", "INVITE", "REGISTER", "OPTIONS", "BYE", "SUBSCRIBE", "ACK", "CANCEL", "NOTIFY", "MESSAGE", "XFOO", "X-EXT"})
+	o := gen.MsgOpts{Request: 1, CL: gen.CLExact, BodyMax: 80, MaxHdrs: b.r.PickInt(0, 0, 6, 12), ForceMethod: method, ValidStatus: true, Canonical: true}
 	if b.r.Chance(1, 12) {
 		o.Request = 0 // replies: no signature
 	}
